@@ -93,6 +93,25 @@ func runC08(c *Ctx, r *Rng, sc c08Scenario, idx int) {
 					close(firstSeen)
 				}
 				switch sc.peer {
+				case "stream":
+					// from the first request on, a steady stream of well-formed but wrongly signed replies, faster
+					// than the retransmission interval
+					if cnt == 1 {
+						peerWG.Add(1)
+						go func() {
+							defer peerWG.Done()
+							tick := time.NewTicker(sc.retry / 4)
+							defer tick.Stop()
+							for {
+								select {
+								case <-stopPeer:
+									return
+								case <-tick.C:
+									pc.WriteTo(mkReply(peerRng, "wrong-secret", wireParsed, wire, sec, 7), a)
+								}
+							}
+						}()
+					}
 				case "garbage":
 					for k := 0; k < 5; k++ {
 						d := peerRng.Bytes(1 + peerRng.Intn(40))
@@ -122,6 +141,12 @@ func runC08(c *Ctx, r *Rng, sc c08Scenario, idx int) {
 		cancel()
 	case "after-first":
 		ctx, cancel = context.WithCancel(ctx)
+	case "after-first-cause":
+		var cc context.CancelCauseFunc
+		ctx, cc = context.WithCancelCause(ctx)
+		cancel = func() { cc(errors.New("caller's own reason")) }
+	case "deadline-cause":
+		ctx, cancel = context.WithTimeoutCause(ctx, 60*time.Millisecond, errors.New("caller's own deadline reason"))
 	case "deadline":
 		ctx, cancel = context.WithTimeout(ctx, 60*time.Millisecond)
 	case "deadline-long":
@@ -130,7 +155,7 @@ func runC08(c *Ctx, r *Rng, sc c08Scenario, idx int) {
 		ctx, cancel = context.WithTimeout(ctx, 5*time.Second) // safety net only
 	}
 	var cancelAt time.Time
-	if sc.cancel == "after-first" {
+	if sc.cancel == "after-first" || sc.cancel == "after-first-cause" {
 		delay := time.Duration(5+r.Intn(30)) * time.Millisecond
 		go func() {
 			select {
@@ -196,7 +221,10 @@ func runC08(c *Ctx, r *Rng, sc c08Scenario, idx int) {
 	if sc.retry <= 0 && sc.peer != "closed" && len(gotCopy) != 1 && sc.cancel != "before" {
 		c.Fail("spec", "Exchange", sc.name, key, fmt.Sprintf("%d datagrams", len(gotCopy)), "1", "no retransmission when the interval is zero or negative")
 	}
-	if sc.name == "silent-interval" {
+	if parentErr != nil && xerr != nil && xerr != parentErr && xerr == context.Cause(ctx) {
+		c.Fail("spec", "Exchange", sc.name, key, fmt.Sprintf("%T: %v", xerr, xerr), fmt.Sprintf("%T: %v", parentErr, parentErr), "when the context has ended the call returns the context's own error (ctx.Err()), not the cause the caller attached to it")
+	}
+	if sc.name == "silent-interval" || sc.name == "stream-interval" {
 		// while it waits it keeps retransmitting at the configured interval: a generous lower bound (a third of the
 		// nominal count) separates a steady ticker from one that slows down or stops
 		waited := retAt.Sub(start)
@@ -341,7 +369,7 @@ func runC08(c *Ctx, r *Rng, sc c08Scenario, idx int) {
 	}
 	t.I(int64(nsent)).I(1)
 	cs := Case{Req: rq, Impl: t.String(), Tag: sc.name, NoSpec: true, Desc: key}
-	if sc.peer == "garbage" && sc.max > 0 && class == 1 {
+	if (sc.peer == "garbage" && sc.max > 0 && class == 1) || sc.peer == "stream" || strings.HasSuffix(sc.cancel, "-cause") {
 		// which garbage datagram tipped the budget depends on arrival timing relative to reads; class only
 		c.Count(sc.name, key)
 	} else {
@@ -376,7 +404,7 @@ func loopbackRefuses() bool {
 
 func init() {
 	props["C08"] = func(c *Ctx) {
-		c.Res.Rule = "real Client.Exchange over loopback UDP: peer behaviour {silent, garbage flood, late authentic reply, closed port} x Retry {-1, 0, 5 ms, 1 h} x MaxPacketErrors {0, 3} x cancellation {none, before the call, after the first datagram, deadline}. Checked directly: return class, context error only when the context ended and promptly (generous bounds), byte-identical retransmissions, exactly one transmission for Retry <= 0, nothing sent after return, no goroutine of Exchange alive after return; the run is translated into an event sequence of the lifecycle model and the model's result compared. non-trivial = run with a cancellation or more than one transmission"
+		c.Res.Rule = "real Client.Exchange over loopback UDP: peer behaviour {silent, garbage flood, steady stream of wrongly signed replies faster than Retry, late authentic reply, closed port} x Retry {-1, 0, 5 ms, 1 h} x MaxPacketErrors {0, 3} x cancellation {none, before the call, after the first datagram, deadline; the last two also with a caller-supplied cause}. Checked directly: return class, context error only when the context ended and promptly (generous bounds), byte-identical retransmissions, exactly one transmission for Retry <= 0, nothing sent after return, no goroutine of Exchange alive after return; the run is translated into an event sequence of the lifecycle model and the model's result compared. non-trivial = run with a cancellation or more than one transmission"
 		r := c.Rng.Fork()
 		retries := []time.Duration{-1, 0, 5 * time.Millisecond, time.Hour}
 		var scs []c08Scenario
@@ -393,6 +421,9 @@ func init() {
 		}
 		scs = append(scs, c08Scenario{"late-reply-after-retries", "late", 5 * time.Millisecond, 0, "none", 3})
 		scs = append(scs, c08Scenario{"silent-interval", "silent", 10 * time.Millisecond, 0, "deadline-long", 0})
+		scs = append(scs, c08Scenario{"stream-interval", "stream", 12 * time.Millisecond, 0, "deadline-long", 0})
+		scs = append(scs, c08Scenario{"cancel-with-cause", "silent", 5 * time.Millisecond, 0, "after-first-cause", 0})
+		scs = append(scs, c08Scenario{"deadline-with-cause", "silent", 0, 0, "deadline-cause", 0})
 		if loopbackRefuses() {
 			scs = append(scs,
 				c08Scenario{"closed-port-prompt", "closed", 0, 0, "none", 0},
@@ -410,6 +441,6 @@ func init() {
 		}
 		c.Trivial("closed-port")
 		c.Flush()
-		c.RequireTags("silent-cancel", "silent-deadline", "flood-cancel", "late-reply", "expired-before", "late-reply-after-retries", "silent-interval")
+		c.RequireTags("silent-cancel", "silent-deadline", "flood-cancel", "late-reply", "expired-before", "late-reply-after-retries", "silent-interval", "stream-interval", "cancel-with-cause", "deadline-with-cause")
 	}
 }
